@@ -39,16 +39,51 @@ fn run_prog(src: &str, args: &[Value]) -> RunOut {
 }
 
 /// first failure of the deep validator over all observable values of a finished run
+static ZW_SKIPS: std::sync::atomic::AtomicUsize = std::sync::atomic::AtomicUsize::new(0);
+
+/// some map inside the value has keys that are rows WITHOUT elements
+fn zero_width_keys_deep(v: &Value) -> bool {
+    if let Some((kv, _, _, _)) = uiua::verif::map_dump(v) {
+        if kv.rank() >= 1 && kv.shape.iter().skip(1).any(|&d| d == 0) {
+            return true;
+        }
+        if zero_width_keys_deep(&kv) {
+            return true;
+        }
+    }
+    match v {
+        Value::Box(a) => a.elements().any(|b| zero_width_keys_deep(&b.0)),
+        _ => false,
+    }
+}
+
+/// The validator's limit: when the keys of a map are rows without elements, an empty cell of
+/// the key table cannot be told from the key (both have no elements), so `check_value` counts
+/// every cell as a key and reports "two map keys point at row 0" / a duplicate key.  get / has /
+/// insert / remove behave correctly on such maps (checked by hand and in the regression
+/// corpus), so exactly this verdict on exactly such maps is skipped and counted.
+fn validator_limit(v: &Value, e: &str) -> bool {
+    (e.contains("two map keys point at row") || e.contains("duplicate map key") || e.contains("present keys")) && zero_width_keys_deep(v)
+}
+
 fn check_all(out: &RunOut) -> Option<(String, Value)> {
     if let Ok(st) = &out.stack {
         for (i, v) in st.iter().enumerate() {
             if let Err(e) = uiua::verif::check_value(v) {
+                if validator_limit(v, &e) {
+                    ZW_SKIPS.fetch_add(1, std::sync::atomic::Ordering::SeqCst);
+                    continue;
+                }
                 return Some((format!("stack[{i}] {e}"), v.clone()));
             }
         }
     }
     for (k, v) in &out.bound {
         if let Err(e) = uiua::verif::check_value(v) {
+            if validator_limit(v, &e) {
+                ZW_SKIPS.fetch_add(1, std::sync::atomic::Ordering::SeqCst);
+                continue;
+            }
             return Some((format!("binding {k} {e}"), v.clone()));
         }
     }
@@ -213,6 +248,15 @@ fn gen_typed(r: &mut Rng, kind: usize, shape: &[usize], depth: usize) -> Value {
     }
 }
 
+/// a byte array of zeros and ones sometimes arrives with the (truthful) boolean mark
+fn maybe_bool(r: &mut Rng, v: &mut Value) {
+    if let Value::Byte(a) = &*v {
+        if a.elements().all(|&b| b <= 1) && r.chance(1, 2) {
+            uiua::verif::set_boolean(v, true);
+        }
+    }
+}
+
 fn small_shape(r: &mut Rng, max_rank: usize, max_dim: usize) -> Vec<usize> {
     let rank = r.below(max_rank + 1);
     (0..rank).map(|_| if r.chance(1, 9) { 0 } else { 1 + r.below(max_dim) }).collect()
@@ -239,6 +283,7 @@ fn gen_args(r: &mut Rng, n: usize) -> Vec<Value> {
         };
         let kind = if mixed { r.below(5) } else if r.chance(1, 4) { *r.pick(&[0usize, 1]) } else { main_kind };
         let mut v = gen_typed(r, kind, &shape, 0);
+        maybe_bool(r, &mut v);
         // some arguments arrive sorted and marked, some as maps
         match r.below(12) {
             0 | 1 => {
@@ -709,7 +754,8 @@ fn print_stats(st: &Stats) {
     ek.sort_by(|a, b| b.1.cmp(a.1));
     let eks: Vec<String> = ek.iter().take(12).map(|(k, v)| format!("{}:{}", jstr(k), v)).collect();
     println!(
-        "{{\"summary\":true,\"cases\":{},\"ok\":{},\"err\":{},\"panics\":{},\"values\":{},\"marked\":{},\"maps\":{},\"boxes\":{},\"consumer_runs\":{},\"prim_ok\":{{{}}},\"err_kinds\":{{{}}}}}",
+        "{{\"summary\":true,\"zero_width_key_skips\":{},\"cases\":{},\"ok\":{},\"err\":{},\"panics\":{},\"values\":{},\"marked\":{},\"maps\":{},\"boxes\":{},\"consumer_runs\":{},\"prim_ok\":{{{}}},\"err_kinds\":{{{}}}}}",
+        ZW_SKIPS.swap(0, std::sync::atomic::Ordering::SeqCst),
         st.cases,
         st.ok,
         st.err,
@@ -837,7 +883,8 @@ fn directed_struct(r: &mut Rng) -> Case {
     if r.chance(1, 3) {
         shape.push(1 + r.below(3));
     }
-    let arr = gen_typed(r, kind, &shape, 0);
+    let mut arr = gen_typed(r, kind, &shape, 0);
+    maybe_bool(r, &mut arr);
     let f = *r.pick(&STRUCT_DYADIC);
     let idx = mono_indices(r, rows);
     let idx_lit = if f == "▽" {
@@ -876,6 +923,81 @@ fn directed_struct(r: &mut Rng) -> Case {
     };
     let marker = r.pick(&MARKERS).to_string();
     Case { terms: vec![(term, names), (marker, vec!["prep".into()])], args: vec![arr], header: "# Experimental!\n".into(), bind: false }
+}
+
+const ROWLESS_SHAPES: [&[usize]; 7] = [&[0], &[0, 3], &[2, 0], &[0, 0], &[1, 0, 2], &[0, 1], &[3, 0, 0]];
+const INV_MONADIC: [(&str, &str); 22] = [
+    ("°▽", "keep"), ("°⊚", "where"), ("°⊛", "classify"), ("°◴", "deduplicate"), ("°⊂", "join"), ("°⊟", "couple"),
+    ("°⍉", "transpose"), ("°♭", "deshape"), ("°□", "box"), ("°⇡", "range"), ("°△", "shape"), ("°¤", "fix"),
+    ("°⍆", "sort"), ("°⋯", "bits"), ("°⇌", "reverse"), ("°⊢", "first"), ("°⊣", "last"), ("°⍏", "rise"),
+    ("°⍖", "fall"), ("°⧻", "length"), ("°◇⊂", "join"), ("°⊜□", "partition"),
+];
+const ANTI_DYADIC: [(&str, &str); 10] = [
+    ("⌝↘", "drop"), ("⌝↙", "take"), ("⌝⊏", "select"), ("⌝⊡", "pick"), ("⌝▽", "keep"), ("⌝↻", "rotate"),
+    ("⌝⊂", "join"), ("⌝⊟", "couple"), ("⌝↯", "reshape"), ("⌝⤸", "orient"),
+];
+const UNDER_F: [(&str, &str, bool); 20] = [
+    ("▽", "keep", true), ("⊏", "select", true), ("↙", "take", true), ("↘", "drop", true), ("⊡", "pick", true),
+    ("↻", "rotate", true), ("↯", "reshape", true), ("⊢", "first", false), ("⊣", "last", false), ("♭", "deshape", false),
+    ("⇌", "reverse", false), ("⍉", "transpose", false), ("⊚", "where", false), ("⊛", "classify", false),
+    ("◴", "deduplicate", false), ("⍆", "sort", false), ("¤", "fix", false), ("□", "box", false), ("⊜□", "partition", true), ("⧻", "length", false),
+];
+const UNDER_G: [&str; 10] = ["⇌", "∘", "(+1)", "¯", "⍆", "(⊂0)", "(▽0)", "(↯2_2_2)", "¬", "(×0)"];
+
+/// un-, anti- and under- forms of the structural primitives, fed arrays WITHOUT rows of every
+/// type and shape as well as ordinary ones
+fn directed_inv(r: &mut Rng) -> Case {
+    let mut gen_arr = |r: &mut Rng| -> Value {
+        let kind = *r.pick(&[0usize, 1, 2, 3, 4, 0, 1]);
+        let mut v = if r.chance(1, 2) {
+            let sh = *r.pick(&ROWLESS_SHAPES);
+            gen_typed(r, kind, sh, 0)
+        } else {
+            let sh = small_shape(r, 3, 3);
+            gen_typed(r, kind, &sh, 0)
+        };
+        maybe_bool(r, &mut v);
+        if r.chance(1, 4) {
+            if let Ok(st) = run_uiua_with(*r.pick(&["⍆", "⇌⍆"]), &[v.clone()]) {
+                v = st.into_iter().next().unwrap_or(v);
+            }
+        }
+        v
+    };
+    let a = gen_arr(r);
+    let b = gen_arr(r);
+    let c = gen_arr(r);
+    let n = a.row_count().max(1);
+    let idx = {
+        let v = mono_indices(r, n);
+        match r.below(4) {
+            0 => "[]".to_string(),
+            1 => lit_num(v[0] as f64),
+            _ => lit_ints(&v, false),
+        }
+    };
+    let fill = if r.chance(1, 5) { *r.pick(&["⬚0", "⬚@a", "⬚(□0)", "⬚[1 2]"]) } else { "" };
+    let (term, names): (String, Vec<String>) = match r.below(3) {
+        0 => {
+            let (t, nm) = *r.pick(&INV_MONADIC);
+            (format!("{fill}{t}"), vec!["un".into(), nm.into()])
+        }
+        1 => {
+            let (t, nm) = *r.pick(&ANTI_DYADIC);
+            if r.chance(1, 2) {
+                (format!("{fill}{t} {idx}"), vec!["anti".into(), nm.into()])
+            } else {
+                (format!("{fill}{t}"), vec!["anti".into(), nm.into()])
+            }
+        }
+        _ => {
+            let (f, nm, dy) = *r.pick(&UNDER_F);
+            let g = *r.pick(&UNDER_G);
+            let inner = if dy { format!("({f} {idx})") } else { paren(f) };
+            (format!("{fill}⍜{inner}{g}"), vec!["under".into(), nm.into()])
+        }
+    };
+    Case { terms: vec![(term, names)], args: vec![c, b, a], header: "# Experimental!\n".into(), bind: false }
 }
 
 // ------------------------------------------------------------------ cross-check of the validator
@@ -927,7 +1049,7 @@ fn mismark(r: &mut Rng, v: &mut Value) {
 /// regression corpus: the inputs on which the monitor found mis-marked or malformed values
 /// before the fix: commits (35ff854, f306b49, eea1d01, ade6601, 60de79d, 9703aa4, e1a3340,
 /// f50d52f, 7af2e92, 3374592, f64950a); replayed first by every search that starts at case 0
-const REGRESSION: [&str; 45] = [
+const REGRESSION: [&str; 70] = [
     "¯\"abc\"",
     "⌊⍆[ℂ5 1.2 ℂ0 1.7]",
     "⌈⍆[ℂ5 1.2 ℂ0 1.7]",
@@ -975,6 +1097,35 @@ const REGRESSION: [&str; 45] = [
     "≠ map 3 3 [9 2 1 6]",
     "∊⇡2 ⍆[0 1 2 3]",
     "∊⇡2 map [1 2 3 4] ⍆[0 1 2 3]",
+    // round 5 (7b35e38, c6a083c, 4e05bb0, ee5bf28, 13770ba, fca5c4a)
+    "▽ 2 map [1 2] [3 4]",
+    "▽ 0 map [1 2] [3 4]",
+    "▽ 0.5 map [1 2] [3 4]",
+    "▽ 4 map [45 0] [1 1]",
+    "⟜(▽ ¯2) map [1 2] [3 4]",
+    "°(↘ ¯2) map [1 2 3 4] [5 6 7 8]",
+    "°(↘ 1) map [1 2] [5 6]",
+    "⧈+ map [1 2] [3 4]",
+    "\\+ [1 0 1]",
+    "/×\\+ [1 0 1]",
+    "°\\+ [1 1 0]",
+    "⧈+ [1 0 1 1]",
+    "/+[[1 0 1][1 1 1]]",
+    "/×/+[[1 0 1][1 1 1]]",
+    "⬚[5 6]↙3 [[1 0][0 1]]",
+    "⍜(▽[1 0 1])(↯2_2_2) [1 2 3]",
+    "⊞₋₂⊟ [1 2] [3 4]",
+    "⊞₋₁(°+) 1 2",
+    // maps whose keys are rows without elements: well-formed, the validator's limit (see validator_limit)
+    "map ↯1_0 0 [7]",
+    "map ↯2_0 0 [7 8]",
+    "insert \"\" 1 insert \"\" 2 map [] []",
+    "⍤⤙≍ 7 get ↯0 0 map ↯1_0 0 [7]",
+    "⍤⤙≍ 0 has \"\" remove \"\" insert \"\" 1 map [] []",
+    // second seeded mutation (un-keep of an array without rows)
+    "°▽ []",
+    // STILL OPEN (C05-sort-fixed-map): sorting a fixed map turns its key table into one list key
+    "°¤ ⍆ ¤ map [1 2 3 4] [3 1 4 2]",
 ];
 
 static PROGRESS: std::sync::atomic::AtomicU64 = std::sync::atomic::AtomicU64::new(u64::MAX);
@@ -1022,6 +1173,9 @@ fn main() {
                     monitor_case(&g, &c, 2_000_000 + k as u64, &mut st, false);
                 }
                 println!("{{\"regression\":{}}}", REGRESSION.len());
+                // flushed now: a later hang ends the process before the next periodic summary
+                print_stats(&st);
+                st = Stats::default();
             }
             for i in a2..a3 {
                 PROGRESS.store(i, std::sync::atomic::Ordering::SeqCst);
@@ -1030,7 +1184,10 @@ fn main() {
                     print_stats(&st);
                     st = Stats::default();
                 }
-                let c = if i % 6 == 5 {
+                let c = if i % 12 == 8 {
+                    let mut r = Rng::new(seed.wrapping_mul(1_000_003).wrapping_add(i));
+                    directed_inv(&mut r)
+                } else if i % 6 == 5 {
                     let mut r = Rng::new(seed.wrapping_mul(1_000_003).wrapping_add(i));
                     directed_struct(&mut r)
                 } else if i % 3 == 2 {
@@ -1046,7 +1203,10 @@ fn main() {
         "one" => {
             let mut st = Stats::default();
             let i = a2;
-            let c = if i % 6 == 5 {
+            let c = if i % 12 == 8 {
+                let mut r = Rng::new(seed.wrapping_mul(1_000_003).wrapping_add(i));
+                directed_inv(&mut r)
+            } else if i % 6 == 5 {
                 let mut r = Rng::new(seed.wrapping_mul(1_000_003).wrapping_add(i));
                 directed_struct(&mut r)
             } else if i % 3 == 2 {
